@@ -136,7 +136,12 @@ def gen(cls, idx, rng, tier):
                     else:
                         kids.append((6 + rng.randrange(18), ("L", "extra")))
                     s = (s[0], kids)
-                trees.append(("m%d" % i, km[0], km[1], (r2, [(l, s)])))
+                if rng.random() < .4:
+                    # the second tree is *rooted* on a chip the first passes
+                    # through (a locally injected packet joins the route)
+                    trees.append(("m%d" % i, km[0], km[1], s))
+                else:
+                    trees.append(("m%d" % i, km[0], km[1], (r2, [(l, s)])))
         rng.shuffle(trees)
         return dict(kind="forest", w=w, h=h, trees=trees)
     # ---- part B
